@@ -121,6 +121,9 @@ class PersistentRemoteWorker(PersistentWorker, RemoteWorker):
                     pass
                 break
 
+        if not last_partial_result_signalled: # e.g. the final result was fabricated by the server after a forced kill - consumers of the results pipe still need to be told that nothing more will come
+            self._results_pipe.child_end.put((counter, False, None, self.id))
+
         self._results_pipe.child_end.close()
 
     # Do not transfer results queue over network
